@@ -367,3 +367,61 @@ def generator_failures(sx, p):
             problems.append('status %s for a failed call' % st)
     sx.observe('problems', problems)
     return not problems
+
+
+@harness('C13', params=[(pr, t) for pr in ('json', 'xml', 'soap11') for t in ('wsgi-chunked', 'wsgi-unchunked')], label=lambda p: '%s %s' % p,
+         functions=['spyne.server.wsgi.WsgiApplication.handle_rpc', 'spyne.server.wsgi.WsgiApplication.handle_error'],
+         bounds={'schedule': 'a wsgi_return / wsgi_exception listener on the transport that replaces ctx.out_string by a list with 0, 1 or 40 '
+                             'more bytes in front (or leaves it alone); a successful call and a call that ends in a Fault'})
+def response_rewritten_by_listener(sx, p):
+    """the transport's wsgi_return / wsgi_exception hooks may rewrite the response body: whatever they leave in ctx.out_string is
+    what is sent, and a Content-Length header, when sent, counts those bytes"""
+    import io
+    from spyne.server.wsgi import WsgiApplication
+    from harness import C09_wire as W
+    proto, transport = p
+    kind = sx.choose('kind', ['none', 'fault'])
+    extra = sx.choose('extra_bytes', [None, 0, 1, 40])
+    if proto not in W.LAZY_APPS:
+        Pc = {'json': W.JsonDocument, 'xml': W.XmlDocument, 'soap11': W.Soap11}[proto]
+        W.LAZY_APPS[proto] = W.Application([W.LazySvc], 'tns', in_protocol=Pc(), out_protocol=Pc())
+    app = W.LAZY_APPS[proto]
+    W.LAZY['kind'] = kind
+    body, ctype = W.LAZY_REQ[proto](0 if kind == 'fault' else 2)
+    environ = {'REQUEST_METHOD': 'POST', 'PATH_INFO': '/', 'QUERY_STRING': '', 'SERVER_NAME': 'localhost', 'SERVER_PORT': '80',
+               'wsgi.url_scheme': 'http', 'wsgi.input': io.BytesIO(body), 'CONTENT_LENGTH': str(len(body)), 'CONTENT_TYPE': ctype}
+    rec = P.Record()
+    closed = []
+    counting = lambda ctx: closed.append(len(rec.chunks))
+    app.event_manager.add_listener('method_context_closed', counting)
+    w = WsgiApplication(app, chunked=(transport == 'wsgi-chunked'))
+    seen = []
+
+    def rewrite(ctx):
+        seen.append(1)
+        if extra is not None:
+            ctx.out_string = [b' ' * extra] + [c for c in ctx.out_string]
+    w.event_manager.add_listener('wsgi_return', rewrite)
+    w.event_manager.add_listener('wsgi_exception', rewrite)
+
+    def start_response(status, headers, exc_info=None):
+        rec.start_response.append((status, headers, len(rec.chunks)))
+    try:
+        it = w(environ, start_response)
+        rec.extra['iter_started_with_start_response'] = len(rec.start_response)
+        for c in it:
+            rec.chunks.append(c)
+        if hasattr(it, 'close'):
+            it.close()
+    except Exception as e:
+        rec.escaped = e
+    finally:
+        app.event_manager.handlers['method_context_closed'].remove(counting)
+    rec.extra['closed'] = closed
+    problems = O.check_wsgi({'proto': proto}, rec)
+    if not problems and seen and extra is not None:
+        sent = b''.join(rec.chunks)
+        if not sent.startswith(b' ' * extra) or sent[extra:extra + 1] == b' ':
+            problems.append('the body left by the listener is not the body sent')
+    sx.observe('problems', problems)
+    return not problems
